@@ -2206,6 +2206,11 @@ class Engine:
             raise Unsupported('bytearray(...)')
         if name == 'memoryview' and (isinstance(args[0], Slice) or type(args[0]).__name__ == 'BitsBytes'):
             return args[0]
+        if name == 'enumerate' and isinstance(args[0], (PyList, tuple, list)) and len(args) <= 2 and \
+                all(isinstance(x, int) for x in args[1:]) and not (set(kwargs) - {'start'}):
+            items = args[0].items if isinstance(args[0], PyList) else list(args[0])
+            start = args[1] if len(args) == 2 else kwargs.get('start', 0)
+            return PyList([(start + k, x) for k, x in enumerate(items)])
         if name == 'list' and len(args) == 1 and isinstance(args[0], (str, tuple)):
             return PyList(list(args[0]))
         if name == 'ord' and isinstance(args[0], (str, bytes)) and len(args[0]) == 1:
